@@ -446,6 +446,7 @@ class Func:
         self.blocks = {}
         for b in d.get("blocks", []):
             self.blocks[b["id"]] = Block(self, b, repo)
+        self._thread_shortcircuits()
         for b in self.blocks.values():
             for s in b.succs:
                 if s is not None:
@@ -460,6 +461,24 @@ class Func:
 
     def elem(self, ref):
         return self.blocks[ref[0]].elems[ref[1]]
+
+    def _thread_shortcircuits(self):
+        """clang gives the condition of a do-while (unlike if / while / for) a block of its own in which the values of a
+        chain of && / || are merged before the loop branches on the merged value; a path-insensitive walk then sees the edge
+        "first operand false" continue into "condition true".  The short-circuit edges into such a merge block decide the
+        whole condition (false for &&, true for ||), so they are sent straight to the corresponding successor."""
+        for B in self.blocks.values():
+            if not B.term or B.term.get("cls") not in ("DoStmt", "WhileStmt", "ForStmt", "IfStmt") or len(B.succs) != 2:
+                continue
+            if len(B.elems) != 1 or B.elems[0].cls != "BinaryOperator" or B.elems[0].op not in ("&&", "||"):
+                continue
+            for P in self.blocks.values():
+                if P is B or not P.term or P.term.get("cls") != "BinaryOperator" or P.term.get("op") not in ("&&", "||") or len(P.succs) != 2:
+                    continue
+                if P.term["op"] == "&&" and P.succs[1] == B.id:
+                    P.succs[1] = B.succs[1]
+                elif P.term["op"] == "||" and P.succs[0] == B.id:
+                    P.succs[0] = B.succs[0]
 
     def _restore_names(self):
         """A parameter or local that was merely renamed gets the name it has on the pinned tree back (sa/names.json): when
@@ -553,7 +572,9 @@ class Func:
     def rpo(self):
         if self._rpo is None:
             seen, order = set(), []
-            stack = [(self.entry, iter([s for s in self.blocks[self.entry].succs if s is not None]))]
+            # successors are visited last-first, so that a loop's body precedes the loop's exit in the resulting order: a
+            # worklist that follows it iterates inner loops to their fixpoint before anything after them is looked at
+            stack = [(self.entry, iter([s for s in reversed(self.blocks[self.entry].succs) if s is not None]))]
             seen.add(self.entry)
             while stack:
                 n, it = stack[-1]
@@ -561,7 +582,7 @@ class Func:
                 for s in it:
                     if s not in seen:
                         seen.add(s)
-                        stack.append((s, iter([x for x in self.blocks[s].succs if x is not None])))
+                        stack.append((s, iter([x for x in reversed(self.blocks[s].succs) if x is not None])))
                         adv = True
                         break
                 if not adv:
